@@ -175,6 +175,12 @@ def check_widths(ctx, unit, classes, rule_store="B9.no-narrowing-store", rule_ma
         fns = [f for f in unit.functions if (f.owner_cls or "") == cls or (f.owner_cls or "").startswith(cls + "::") or f.uq.startswith(cls + "::")
                or (cls.endswith("::") and f.uq.startswith(cls))]
         if not fns:
+            if recs:
+                # a class whose only special members are defaulted has no function body left to examine
+                for rl_ in (rule_store, rule_counter, "B9.bitcount-width"):
+                    ctx.inst(rl_, cls.rstrip(":"), True, recs[0].get("loc", ""), "the class has no function body of its own "
+                             "(all members defaulted / initialised in class): nothing is stored through a conversion", None, nontrivial=False)
+                continue
             raise AnalysisBroken("anchor vanished: no function of %s in unit" % cls)
         bitw = {}
         for r in recs:
